@@ -121,7 +121,7 @@ pub fn specs(quick: bool) -> Vec<Spec> {
     for g in [0.0, 0.3, 0.8] {
         v.push(Spec::unp(LaguerreFilter, 0, vec![g], Spec::echo()));
     }
-    for n in ns(6) {
+    for n in ns(1).into_iter().chain([4, 5, 6, 7]) {
         v.push(Spec::un(CyberCycle, n, Spec::echo()));
     }
     for n in ns(3) {
@@ -151,7 +151,7 @@ pub fn run(ctx: &Ctx) -> CheckOutput {
                     JobOut { stats: st, viols: sink.take(), samples: vec![json!({"explorer":"TREE","scalar":"f64","view":spec.name(),"alphabet":alpha,"depth":depth})] }
                 }));
             }
-            if n <= 4 || spec.kind == Kind::CyberCycle && n <= 6 {
+            if n <= 4 {
                 let (spec, alpha) = (spec.clone(), alpha.clone());
                 let depth = depth.min(if quick { 7 } else { 8 });
                 jobs.push(Box::new(move || {
